@@ -23,7 +23,7 @@ LEVEL_TEXT = ('every one of the 2^14 (and 2^12 with all four aesthetics methods)
               'spectrum on 7 output grids, every single bad run (start x length<=12) and every pair of bad runs from a 48-run '
               'menu on 2-3 stacked 128-pixel exposures (same and different wavelength coverage), and a Gaussian feature at 10 positions x 3 redshifts (1 and 2 objects) '
               'were executed on the real combine1fiber / preprocess_spectra and compared with an independent oracle')
-LEVEL_NOTE = ('holds only for the enumerated uniform log-wavelength grids, the three noise-free flux shapes (constant, linear, '
+LEVEL_NOTE = ('holds only for the enumerated uniform and quadratically drifting (8 %) log-wavelength grids, the three noise-free flux shapes (constant, linear, '
               'slow sine) and two ivar levels; nothing is claimed for noisy data (where the 5-sigma rejection acts), for '
               'finalmask/indisp/skyflux, or for flux accuracy on shifted grids next to bad pixels. Trusted: the oracle in '
               'mc/props/c11.py, numpy.interp, the offline SPPIXMASK fixture')
@@ -32,7 +32,9 @@ RULE = ('1-D: input pixel i at loglam c0+1e-4*i; a case = (n, zero-weight bit pa
         'all patterns are enumerated for each menu combination. 2-D: (number of exposures, pixel offsets, list of bad runs '
         '(exposure, start, length), flux shape, grid); stacks whose exposures cover different ranges (exposure e shifted by e*D '
         'pixels, D in {24, 40, 100}, plus half a pixel for odd e) x bad runs x ivar shape {constant, ramp, non-monotone} x output '
-        'grid {each exposure grid, +0.3 px, wider}; scaling ladder: (base case, c) for every c of a 10-step ladder. preprocess: (objects, redshifts, feature position, 1-D/2-D loglam, own/given output grid). '
+        'grid {each exposure grid, +0.3 px, wider}; scaling ladder: (base case, c) for every c of a 10-step ladder; non-uniform grids: every zero-weight pattern x (input grid, '
+        'output grid) over {uniform, dispersion drifting +8%..-8%, -8%..+8%} x {same, 3 more uniform pixels, 2 fewer drifting '
+        'pixels}, all with identical end points. preprocess: (objects, redshifts, feature position, 1-D/2-D loglam, own/given output grid). '
         'Non-trivial = at least one good input pixel and at least one output pixel inside the input range (1-D/2-D), every '
         'preprocess case. Distinct = distinct case tuples.')
 ASSUMPTIONS = [
@@ -54,6 +56,9 @@ ASSUMPTIONS = [
     'stacked exposures with different coverage: where exactly one exposure has data the single-spectrum clauses are applied to '
     'that exposure (non-zero ivar = linear interpolation of that exposure ivar, <= its larger neighbour); the zero rule uses '
     'the most permissive reading across exposures',
+    'non-uniform grids: the zero rule, np.interp and the local maximum are evaluated at the true log-wavelengths passed to the '
+    'function; cases in which an output pixel lies within 1e-3 px of an input pixel without being bit-identical to it are '
+    'skipped (the code treats positions within float32 eps of a pixel as on it); the clean-interior guard uses 6 px',
     'stacked exposures have 128 pixels and at most 24 bad ones, so >= 101 good pixels each as the variance smoothing assumes',
     'without objivar only shape, finiteness, ivar >= 0, the zero rule outside the input range and the constant/identity clauses are checked',
     'preprocess_spectra: the feature position is the output pixel of maximum flux among pixels with ivar > 0; "moves to '
@@ -427,6 +432,143 @@ def check_c3(case):
     return bad, lab
 
 
+# ------------------------------------------------------------------------------------------------ non-uniform grids
+DRIFT = 0.08
+NUGRIDS = ('uni', 'dp', 'dm', 'uni+3', 'dp-2')
+
+
+def nu_pos(name, n):
+    """Pixel positions (in units of the nominal pixel) of a grid spanning exactly [0, n-1].
+
+    uni: i;  dp / dm: quadratic drift, spacing varies from 1+DRIFT to 1-DRIFT (resp. the reverse) with the same end points
+    and pixel count;  uni+3: uniform with 3 more pixels on the same range;  dp-2: drifting with 2 fewer pixels."""
+    N = float(n - 1)
+    if name == 'uni':
+        return [float(i) for i in range(n)]
+    if name in ('dp', 'dm'):
+        d = DRIFT if name == 'dp' else -DRIFT
+        p = [i + d * i * (N - i) / N for i in range(n)]
+    elif name == 'uni+3':
+        m = n + 3
+        p = [j * N / (m - 1) for j in range(m)]
+    else:
+        m = n - 2
+        t = [j * N / (m - 1) for j in range(m)]
+        p = [u + DRIFT * u * (N - u) / N for u in t]
+    p[0], p[-1] = 0.0, N
+    return p
+
+
+def allowed_at(v, lx, good):
+    """Interpolation-weight rule at the true positions: lx = sorted input loglam (floats as passed), v = output loglam."""
+    i = int(np.searchsorted(lx, v, side='left'))
+    if i < len(lx) and lx[i] == v:
+        return bool(good[i]), i, i
+    if i == 0 or i >= len(lx):
+        return False, None, None
+    return bool(good[i - 1] and good[i]), i - 1, i
+
+
+def check_nu(case):
+    ensure_maskbits()
+    from pydl.pydlspec2d.spec2d import combine1fiber
+    E = 'combine1fiber'
+    n = case['n']
+    px = nu_pos(case['gin'], n)
+    py = nu_pos(case['gout'], n)
+    lx, ly = lam(px), lam(py)
+    # stay away from near-coincidences (the code treats positions within float32 eps of a pixel as on it)
+    for j, v in enumerate(py):
+        dmin = min(abs(v - u) for u in px)
+        if 0 < dmin < 1e-3 or (dmin == 0 and not np.any(lx == ly[j])):
+            return [], 'skip:output pixel within 1e-3 px of an input pixel without coinciding'
+    fin = fluxf(case['flux'], px)
+    iv = ivar_in(case['ivar'], n, case['zeros'])
+    good = [bool(v > 0) for v in iv]
+    try:
+        nf, ni = combine1fiber(lx, fin.copy(), ly, objivar=iv.copy(), aesthetics=case['aes'])
+    except Exception as e:
+        return [(exc_sig(E, e, False), repr(e)[:300])], 'raises-' + type(e).__name__
+    bad = []
+    if not basic_checks(E, nf, ni, len(py), case['aes'], bad):
+        return bad, 'malformed'
+    nf = np.asarray(nf, dtype=float)
+    ni = np.asarray(ni, dtype=float)
+    seen = set()
+
+    def add(sig, msg):
+        if sig not in seen:
+            seen.add(sig)
+            bad.append((sig, msg))
+    expiv = np.interp(ly, lx, iv)
+    ftrue = fluxf(case['flux'], py)
+    nlive = 0
+    for j, v in enumerate(ly):
+        ok, i0, i1 = allowed_at(v, lx, good)
+        if ni[j] != 0:
+            if not ok:
+                why = 'no-good-input' if not any(good) else ('outside-input-range' if i0 is None else
+                                                            ('on-bad-pixel' if i0 == i1 else 'next-to-bad-pixel'))
+                add('%s:ivar-nonzero:%s' % (E, why), 'output pixel %d (position %.4f px) has ivar %r' % (j, py[j], ni[j]))
+                continue
+            if abs(ni[j] - expiv[j]) > 1e-9 * abs(expiv[j]):
+                add(E + ':ivar-not-interpolated', 'output pixel %d (position %.4f px) ivar %r, interpolated input %r' % (j, py[j], ni[j], expiv[j]))
+            if ni[j] > max(iv[i0], iv[i1]) * (1 + 1e-12):
+                add(E + ':ivar-above-local-max', 'output pixel %d (position %.4f px) ivar %r > max(%r, %r)' % (j, py[j], ni[j], iv[i0], iv[i1]))
+            if case['flux'] == 'const' and abs(nf[j] - 10.0) > FTOL * 10.0:
+                add(E + ':constant-not-constant', 'output pixel %d flux %r' % (j, nf[j]))
+            if case['gin'] == case['gout'] and abs(nf[j] - fin[j]) > FTOL * abs(fin[j]):
+                add(E + ':identity:flux', 'pixel %d flux %r input %r' % (j, nf[j], fin[j]))
+        near = [i for i in range(n) if abs(px[i] - py[j]) <= 6.0]
+        if 6.0 <= py[j] <= n - 1 - 6.0 and all(good[i] for i in near):
+            nlive += 1
+            if not ni[j] > 0:
+                add(E + ':reproduce:ivar-zero-in-clean-interior', 'output pixel %d (position %.4f px): all input within 6 px good, ivar %r' % (j, py[j], ni[j]))
+            elif abs(nf[j] - ftrue[j]) > FTOL * abs(ftrue[j]):
+                add(E + ':reproduce:flux-in-clean-interior', 'output pixel %d (position %.4f px) flux %r expected %r' % (j, py[j], nf[j], ftrue[j]))
+    nz = int(np.sum(ni != 0))
+    return bad, 'nonuni:%s>%s:w%s:live%d' % (case['gin'], case['gout'], '0' if nz == 0 else ('all' if nz == len(py) else 'some'), min(nlive, 1))
+
+
+def check_nu2(case):
+    """Two stacked exposures on differently drifting grids with common end points; zero rule at the true positions."""
+    ensure_maskbits()
+    from pydl.pydlspec2d.spec2d import combine1fiber
+    E = 'combine1fiber2d'
+    npx = NPIX2
+    P = [nu_pos(g, npx) for g in case['gin']]
+    py = nu_pos(case['gout'], npx)
+    L = np.array([lam(p) for p in P])
+    ly = lam(py)
+    F = np.array([fluxf(case['flux'], p) for p in P])
+    I = np.array([ivar3('ramp', e, npx) for e in range(len(P))])
+    for e, s0, ln in case['runs']:
+        I[e, s0:s0 + ln] = 0.0
+    good = [[bool(v > 0) for v in I[e]] for e in range(len(P))]
+    for j, v in enumerate(py):
+        for p in P:
+            i = int(np.argmin(np.abs(np.asarray(p) - v)))
+            if 0 < abs(p[i] - v) < 1e-3:
+                return [], 'skip:output pixel within 1e-3 px of an input pixel without coinciding'
+    try:
+        nf, ni = combine1fiber(L, F.copy(), ly, objivar=I.copy(), aesthetics=case['aes'])
+    except Exception as e:
+        return [(exc_sig(E, e, False), repr(e)[:300])], 'raises-' + type(e).__name__
+    bad = []
+    if not basic_checks(E, nf, ni, len(py), case['aes'], bad):
+        return bad, 'malformed'
+    ni = np.asarray(ni, dtype=float)
+    nforced = 0
+    for j, v in enumerate(ly):
+        if not any(allowed_at(v, L[e], good[e])[0] for e in range(len(P))):
+            nforced += 1
+            if ni[j] != 0:
+                bad.append((E + ':ivar-nonzero:in-or-next-to-bad-run', 'output pixel %d (position %.4f px) has ivar %r; runs %s'
+                            % (j, py[j], ni[j], case['runs'])))
+                break
+    return bad, 'nonuni2:%s:forced%s' % ('+'.join(case['gin']), '0' if nforced == 0 else '+')
+
+
 # ------------------------------------------------------------------------------------------------ scaling ladder
 LADDER = ('4', '2^-10', '2^10', '2^-30', '2^30', '2^-60', '1e-3', '1e2', '1e-9', '1e-17')
 EPS32 = float(np.finfo(np.float32).eps)
@@ -563,7 +705,7 @@ def check_pp(case):
     return bad, 'obj%d:%s:%s' % (nobj, 'shifted' if any(z) else 'z0', 'given-grid' if case.get('newll') else 'own-grid')
 
 
-CHECKS = {'c1': check_c1, 'c2': check_c2, 'c3': check_c3, 'sc': check_sc, 'pp': check_pp}
+CHECKS = {'c1': check_c1, 'c2': check_c2, 'c3': check_c3, 'sc': check_sc, 'nu': check_nu, 'nu2': check_nu2, 'pp': check_pp}
 
 
 def check_case(case):
@@ -626,6 +768,20 @@ def tasks(tier):
                     t.append({'f': 'c2s', 'nexp': nexp, 'off': off, 'e': e, 'starts': RUN_STARTS, 'lens': [1, 4, 12], 'scale_every': 32})
                 else:
                     t.append({'f': 'c2s', 'nexp': nexp, 'off': off, 'e': e, 'starts': RUN_STARTS[::4], 'lens': [3], 'scale_every': 1000})
+    # non-uniform input and/or output grids (same end points; same and different pixel count)
+    pairs = [[a, b] for a in ('uni', 'dp', 'dm') for b in NUGRIDS if not (a == 'uni' and b == 'uni')]
+    if T:
+        for hi in range(32):
+            t.append({'f': 'nu', 'n': 12, 'lo': hi << 7, 'hi': (hi + 1) << 7, 'pairs': pairs, 'fi': [['sine', 'ramp', 'traditional']]})
+        t.append({'f': 'nuw', 'n': 16, 'pairs': pairs, 'fi': [['sine', 'ramp', 'traditional'], ['const', 'const', 'mean']]})
+        for gin in (['dp', 'dm'], ['uni', 'dp'], ['dm', 'dm']):
+            t.append({'f': 'nu2', 'gin': gin, 'gouts': ['uni', 'dp', 'dm'], 'starts': list(range(0, 128, 8)), 'lens': [3, 12]})
+    else:
+        for hi in range(4):
+            t.append({'f': 'nu', 'n': 10, 'lo': hi << 8, 'hi': (hi + 1) << 8, 'pairs': [['uni', 'dp'], ['dp', 'uni'], ['dm', 'dp'], ['dp', 'dp']],
+                      'fi': [['sine', 'ramp', 'traditional']]})
+        t.append({'f': 'nuw', 'n': 16, 'pairs': pairs, 'fi': [['sine', 'ramp', 'traditional']]})
+        t.append({'f': 'nu2', 'gin': ['dp', 'dm'], 'gouts': ['uni'], 'starts': [0, 40, 64, 116], 'lens': [3, 12]})
     # scaling ladder: flux*c, ivar/c^2 for c in LADDER
     if T:
         for hi in range(16):
@@ -748,6 +904,25 @@ def run_task(task):
                             continue
                     _do(acc, {'f': 'c2', 'nexp': task['nexp'], 'off': task['off'], 'runs': [first, second], 'flux': 'sine', 'grid': 'same',
                               'aes': 'traditional', 'scale': False}, True)
+    elif f == 'nu':
+        n = task['n']
+        for zeros in sorted(range(task['lo'], task['hi']), key=lambda v: (bin(v).count('1'), v)):
+            for gin, gout in task['pairs']:
+                for fl, ivn, aes in task['fi']:
+                    _do(acc, {'f': 'nu', 'n': n, 'zeros': zeros, 'gin': gin, 'gout': gout, 'flux': fl, 'ivar': ivn, 'aes': aes},
+                        zeros != (1 << n) - 1)
+    elif f == 'nuw':
+        # n = 16: every pattern with at most 2 zero-weight pixels (long enough for the clean-interior guard)
+        n = task['n']
+        pats = [sum(1 << i for i in c) for w in (0, 1, 2) for c in itertools.combinations(range(n), w)]
+        for zeros in pats:
+            for gin, gout in task['pairs']:
+                for fl, ivn, aes in task['fi']:
+                    _do(acc, {'f': 'nu', 'n': n, 'zeros': zeros, 'gin': gin, 'gout': gout, 'flux': fl, 'ivar': ivn, 'aes': aes}, True)
+    elif f == 'nu2':
+        for gout in task['gouts']:
+            for runs in [[]] + [[[e, s0, ln]] for e in (0, 1) for s0 in task['starts'] for ln in task['lens'] if s0 + ln <= NPIX2]:
+                _do(acc, {'f': 'nu2', 'gin': task['gin'], 'gout': gout, 'runs': runs, 'flux': 'sine', 'aes': 'traditional'}, True)
     elif f == 'sc1':
         cache = {}
         for zeros in task['zeros']:
